@@ -124,10 +124,14 @@ Begin(k) == /\ tx.kind = "none" /\ ntx < MaxTx
             /\ UNCHANGED <<m, ntx>>
             /\ Log([act |-> "Begin", kind |-> k, res |-> "ok"])
 
-\* application code raises inside the transaction body
-Abort == /\ tx.kind # "none"
-         /\ tx' = NoTx /\ ntx' = ntx + 1 /\ UNCHANGED m
-         /\ Log([act |-> "Abort", res |-> "ok", sit |-> SitOf(tx, "abort")])
+\* application code raises: inside the transaction body ("body"), or inside the pre-commit handler the application (the
+\* product with its role providers) installed on the MDIB ("hook": the body has ended normally, the commit has begun)
+AbortBy(how) == /\ tx.kind # "none"
+                /\ tx' = NoTx /\ ntx' = ntx + 1 /\ UNCHANGED m
+                /\ Log([act |-> "Abort", how |-> how, res |-> "ok",
+                        sit |-> SitOf(tx, "abort") \cup {"H:" \o how \o ":" \o tx.kind \o ":"
+                                                            \o (IF tx.d = <<>> /\ tx.s = <<>> /\ tx.c = <<>> THEN "empty" ELSE "-")}])
+Abort == \E how \in {"body", "hook"} : AbortBy(how)
 
 \* an API call the transaction rejects (exception caught by the application, transaction goes on)
 Rejected(rec) == /\ tx.rej = 0
